@@ -232,6 +232,35 @@ def sequence_and_environment_runs(viol, tier):
                                   "source's module", {"first": j["source"], "second": j["inplace"],
                                                       "options": j["opt"],
                                                       "include_path": j.get("include_path")}))
+    # concurrent formatter-on calls above the pipe buffer: each SOURCE must be its own input
+    import shutil as _sh
+    real = _sh.which("rustfmt")
+    if real:
+        bigs = []
+        for k in range(6):
+            c = cases[k % len(cases)]
+            src = "// big %d %s\n/* %s */\n" % (k, "\u00e9" * (k + 1), "filler line; } { \u4e2d " * (4000 + 300 * k)) \
+                + c.wgsl
+            bigs.append({"id": "big%d" % k, "source": src, "opt": {"fmt": True}, "inv": True})
+        p, res = core.run_drive(binp, bigs * 3, "c16/bigthreads", threads=6, shuffle=5,
+                                timeout=900,
+                                extra_env={"PATH": os.path.dirname(real) + ":/usr/bin:/bin"})
+        if p.returncode != 0 or len(res) != 3 * len(bigs):
+            raise core.Inconclusive("threaded formatter run failed: %s" % p.stderr[-800:])
+        want = {j["id"]: core.hash_hex(j["source"].encode("utf-8")) for j in bigs}
+        srcs = {j["id"]: j["source"] for j in bigs}
+        for r in res:
+            if r.get("result") != "ok":
+                continue
+            n += 1
+            s_ = [k for k in r.get("inv", {}).get("consts", []) if k["name"] == "SOURCE"]
+            if not s_ or s_[0].get("str_sha") != want[r["id"]]:
+                viol.append(Violation("source-mixed-up-between-threads", "fmt",
+                                      "six formatter-on calls above the pipe buffer on six "
+                                      "threads: SOURCE of %s is not its input (%s)" % (
+                                          r["id"], "missing" if not s_ else "other text, %s bytes"
+                                          % s_[0].get("str_len")),
+                                      {"wgsl": srcs[r["id"]][:3000], "options": {"fmt": True}}))
     # build-script environment
     mdir = os.path.join(core.WORK, "c16", "crate dir")
     os.makedirs(mdir, exist_ok=True)
